@@ -3,7 +3,7 @@ PROP = dict(
     gens=[],
     lake=['IcyVerif.Props.C01'],
     ns='IcyVerif.C01',
-    theorems=['no_panic_partial', 'overflow_guard_needs_2_30_rows', 'errors_recoverable', 'reachable_good'],
+    theorems=['no_panic_wrapped_partial', 'no_panic_partial', 'overflow_guard_needs_2_30_rows', 'errors_recoverable', 'reachable_good'],
     harness='c01',
     harness_timeout=1500,
     design='DESIGN.md §4 C01, §3.2 TermGeo',
@@ -20,7 +20,7 @@ PROP = dict(
              'invocation with depth and expansion limits), caret primitives, limit_caret_pos, Buffer::print_char, margins, '
              'tab stops on a terminal buffer',
     not_modelled='what external actions do (OSC palette regex + hyperlink list, custom font load, sixel decode thread, '
-                 'music note list, SGR attribute bits); RIP/IGS (C20); Avatar, PCBoard, Ctrl-A, Renegade, PETSCII, ATASCII, '
+                 'music note list, SGR attribute bits); RIP/IGS (C20); PETSCII, ATASCII, '
                  'Viewdata, Mode 7, ASCII: oracle only (exploration-supported, no theorem)',
     assumptions=['the model raises `overflow` conservatively when cursor/row arithmetic could leave i32; '
                  'theorem overflow_guard_needs_2_30_rows shows this needs a scrollback above 2^30 rows'],
